@@ -350,7 +350,7 @@ func c02UploadOK(c *Ctx, m *Module) {
 	// identify the two exclusiveWrite calls and the upload one (name without "local." prefix)
 	var uploadWrite, localWrite ssa.CallInstruction
 	for _, cs := range callsIn(fn, "internal/upload.exclusiveWrite") {
-		d := describe(argsOf(cs)[0])
+		d := describeArg(cs, 0)
 		if strings.Contains(d, `"local."`) {
 			localWrite = cs
 		} else {
@@ -464,7 +464,7 @@ func c02UploadOK(c *Ctx, m *Module) {
 				under = true
 			}
 		}
-		sameName := describe(ex.vals[0]) == describe(argsOf(uploadWrite)[0])
+		sameName := describe(ex.vals[0]) == describeArg(uploadWrite, 0)
 		r.Check("C02.uploadOK", "createReport/non-empty result", m.Pos(ret.Pos()), under && sameName,
 			"createReport may return a file name only under uploadOK and it must be the name written by exclusiveWrite(<week>.json); returns "+describe(ex.vals[0]))
 	}
@@ -477,7 +477,7 @@ func c02UploadOK(c *Ctx, m *Module) {
 			continue
 		}
 		mp, key, ok := mapLookup(argsOf(cs)[1])
-		r.Check("C02.earliest", "reports/createReport start argument", m.Pos(cs.Pos()), ok, "start must be earliest[expiry]; got "+describe(argsOf(cs)[1]))
+		r.Check("C02.earliest", "reports/createReport start argument", m.Pos(cs.Pos()), ok, "start must be earliest[expiry]; got "+describeArg(cs, 1))
 		if !ok {
 			continue
 		}
@@ -847,7 +847,7 @@ func c02SetMode(c *Ctx, m *Module) {
 		wlayout, _ = constOf(argsOf(cs)[1])
 	}
 	for _, cs := range callsIn(fn, "os.WriteFile") {
-		d := describe(argsOf(cs)[1])
+		d := describeArg(cs, 1)
 		// conv<[]byte>((m + " ") + asof)
 		if i := strings.Index(d, ` + "`); i >= 0 {
 			rest := d[i+4:]
